@@ -43,4 +43,11 @@ def expectedFor_C16 : List (String × String) := [
 /-- the code behind C16 branches on exactly the conditions the model was written against -/
 theorem conditions_as_modelled_C16 : Gen.condSitesFor_C16 = expectedFor_C16 := by rfl
 
+def expectedOptFor_C16 : List (String × String) := [
+  ("v2/node.go:nodeList:Equals#1", "none")
+]
+
+/-- every call inside the functions behind C16 passes on the option / metadata list the model passes on -/
+theorem option_plumbing_as_modelled_C16 : Gen.optSitesFor_C16 = expectedOptFor_C16 := by rfl
+
 end Jd.CondSites
